@@ -794,8 +794,8 @@ package generator
 //@   shape t.Enum = emptyslice() | enumvals(string) | enumvals(string,string) | enumvals(float64,float64) | enumvals(bool,bool) | enumvals(string,float64) | enumvals(nil,string) | enumvals(object)
 //@   assigns nothing
 //@   ensures [C08,C18] empty-list-fails: len(t.Enum) == 0 ==> result1 != nil
-//@   ensures [C08] integer-values-are-ints-whatever-the-format: result1 == nil && len(t.Type) == 1 && t.Type[0] == "integer" ==> enum_carrier(result0.Decl.Type) == "int"
-//@   ensures [C08] values-have-the-carrier-type: result1 == nil && old(enum_consistent(t.Type, t.Enum)) ==> values_have_type(t.Enum, enum_carrier(result0.Decl.Type))
+//@   ensures [C08,C15] integer-values-are-ints-whatever-the-format: result1 == nil && len(t.Type) == 1 && t.Type[0] == "integer" ==> enum_carrier(result0.Decl.Type) == "int"
+//@   ensures [C08,C15] values-have-the-carrier-type: result1 == nil && old(enum_consistent(t.Type, t.Enum)) ==> values_have_type(t.Enum, enum_carrier(result0.Decl.Type))
 //@   ensures [C08] constants-for-string-values: result1 == nil && old(enum_consistent(t.Type, t.Enum)) && enum_carrier(result0.Decl.Type) == "string" ==> count_decls(g.output.file.Package.Decls, "*codegen.Constant") >= 1 && (len(t.Enum) == 1 ==> count_decls(g.output.file.Package.Decls, "*codegen.Constant") == 1)
 //@   ensures [C08] no-constants-otherwise: result1 == nil && enum_carrier(result0.Decl.Type) != "string" ==> count_decls(g.output.file.Package.Decls, "*codegen.Constant") == 0
 //@   ensures [C08,C16] only-models-adds-no-code: result1 == nil && g.config.OnlyModels ==> count_decls(g.output.file.Package.Decls, "*codegen.Var") == 0 && count_decls(g.output.file.Package.Decls, "*codegen.Method") == 0 && len(g.output.file.Package.Imports) == 0
